@@ -133,9 +133,9 @@ def ensure_facts(config="default", repo=None, log=None):
             fh.write(md.stdout)
         with open(os.path.join(out, "DONE"), "w") as fh:
             json.dump({"digest": digest, "config": config, "extract_s": round(time.time() - t0, 2)}, fh)
-        # keep the cache small: drop fact dirs other than the 6 most recent
+        # keep the cache small: drop fact dirs other than the 16 most recent
         dirs = sorted(glob.glob(os.path.join(CACHE, "facts", "*")), key=os.path.getmtime)
-        for d in dirs[:-6]:
+        for d in dirs[:-16]:
             shutil.rmtree(d, ignore_errors=True)
         if log:
             log("extracted facts for %s (%s) in %.1fs" % (digest, config, time.time() - t0))
